@@ -1,9 +1,12 @@
 package main
 
 import (
+	"bufio"
+	"encoding/json"
 	"fmt"
 	"math"
 	"math/big"
+	"os"
 	"regexp"
 	"strconv"
 	"strings"
@@ -14,6 +17,7 @@ import (
 
 func init() {
 	drivers["pp"] = driverPP
+	drivers["pp-replay"] = driverPPReplay
 	drivers["lit"] = driverLit
 	drivers["sizes"] = driverSizes
 	drivers["layout"] = driverLayout
@@ -900,5 +904,41 @@ func driverHostile(c *Ctx) {
 		c.emit(i, ev)
 		c.out.Flush()
 		c.count("hostile.cases")
+	}
+}
+
+// pp-replay (TLC -> Go): every message MCPrintParse enumerated is built with the real factories, printed and parsed
+// back; the event carries TLC's message and the text the printer model wrote for it.
+func driverPPReplay(c *Ctx) {
+	f, err := os.Open(c.In)
+	if err != nil {
+		fmt.Fprintln(os.Stderr, "harness:", err)
+		os.Exit(3)
+	}
+	defer f.Close()
+	sc := bufio.NewScanner(f)
+	sc.Buffer(make([]byte, 1<<20), 1<<24)
+	i := -1
+	for sc.Scan() {
+		i++
+		if !c.want(i) || (c.N > 1 && i%c.N != 0 && c.Only < 0) {
+			continue
+		}
+		var raw map[string]interface{}
+		if err := json.Unmarshal(sc.Bytes(), &raw); err != nil {
+			fmt.Fprintln(os.Stderr, "harness: bad case:", err)
+			os.Exit(3)
+		}
+		m := raw["msg"].(map[string]interface{})
+		var item ast.ItemNode = ast.NewEmptyItemNode()
+		if it := m["item"].(map[string]interface{}); it["f"] != "none" {
+			item = absToG(it).Build()
+		}
+		w := map[string]int{"false": 0, "true": 1, "optional": 2}[m["w"].(string)]
+		msg := ast.NewDataMessage(strOf(m["name"]), int(m["s"].(float64)), int(m["f"].(float64)), w, m["dir"].(string), item)
+		ev := ppEvent(msg, "replay")
+		ev["want"] = raw
+		c.emit(i, ev)
+		c.count("pp.replayed")
 	}
 }
